@@ -8,7 +8,9 @@ import pipeline
 import semcheck
 
 PATHS = [("f.txt", "f.txt"), ("my file.txt", "my file.txt"), ("dir/g.txt", "dir/g.txt"), ("./f.txt", "f.txt"), ("a'b.txt", "a'b.txt"),
-         ("x;y.txt", "x;y.txt"), ("*.txt", "*.txt"), ("-n", "-n"), ("dir/../h.txt", "h.txt"), ("q\"uote.txt", "q\"uote.txt")]
+         ("x;y.txt", "x;y.txt"), ("*.txt", "*.txt"), ("-n", "-n"), ("dir/../h.txt", "h.txt"), ("q\"uote.txt", "q\"uote.txt"),
+         # a path and the names a careless implementation could use next to it (round 7: C17-9, write through "<path>.tmp" and mv)
+         ("f.txt.tmp", "f.txt.tmp"), ("f.txt~", "f.txt~"), ("f.txt.bak", "f.txt.bak")]
 
 
 def contents(rng, quick):
@@ -26,6 +28,9 @@ def gen_history(rng, strings, idx):
     runtime_path = rng.random() < 0.3
     body = []
     paths = rng.sample(PATHS, 3)
+    if rng.random() < 0.25:
+        paths = [PATHS[0], rng.choice(PATHS[-3:]), rng.choice(PATHS)]       # f.txt together with f.txt.tmp / f.txt~ / f.txt.bak
+    wrap_calls = rng.random() < 0.3        # arguments of write given by function calls (round 7: C17-8, evaluated as "value not used")
     nops = rng.randrange(1, 7)
     meta_strings = []
     for k in range(nops):
@@ -102,11 +107,24 @@ def gen_history(rng, strings, idx):
                 if (canon in store) == v:
                     return "exists(%s)" % P
                 return "!exists(%s)" % P
+            Pw, Sw = P, S
+            if wrap_calls:
+                need_mk = True
+                if rng.random() < 0.7:
+                    Pw = "ids(%s)" % P
+                if rng.random() < 0.7:
+                    Sw = "ids(%s)" % S
             if op == "write":
-                body.append("write(%s, %s%s)" % (P, S, rng.choice(["", ", " + flag(False)])))
+                fl = rng.choice(["", ", " + flag(False)])
+                if wrap_calls and fl and rng.random() < 0.5:
+                    fl = ", idb(%s)" % fl[2:]
+                body.append("write(%s, %s%s)" % (Pw, Sw, fl))
                 store[canon] = s.encode() + b"\n"
             else:
-                body.append("write(%s, %s, %s)" % (P, S, flag(True)))
+                fl = flag(True)
+                if wrap_calls and rng.random() < 0.5:
+                    fl = "idb(%s)" % fl
+                body.append("write(%s, %s, %s)" % (Pw, Sw, fl))
                 store[canon] = store.get(canon, b"") + s.encode() + b"\n"
         elif op == "read":
             if canon not in store:
@@ -121,7 +139,8 @@ def gen_history(rng, strings, idx):
     # final state is observed through the directory tree; also read every file back
     if need_mk:
         lines += ["func mk(p string) bool {", "\twrite(p, \"made\")", "\treturn true", "}", "func two(a bool, b bool) int {", "\tx := 0", "\tif a {", "\t\tx = 10",
-                  "\t}", "\tif b {", "\t\tx = x + 1", "\t}", "\treturn x", "}"]
+                  "\t}", "\tif b {", "\t\tx = x + 1", "\t}", "\treturn x", "}",
+                  "func ids(s string) string {", "\treturn s", "}", "func idb(v bool) bool {", "\treturn v", "}"]
     if in_func:
         lines.append("func ops() {")
         lines += ["\t" + l for l in body]
